@@ -245,10 +245,11 @@ func forFor(f *forExpander) forStateFn {
 		f.forLineLabels = []string{}
 	}
 
+	// labels in front of the counter are ordinary labels of the first
+	// instruction the block emits: they keep their names, so that they can
+	// be referenced from inside and from outside the block
 	f.forLineLabelsToWrite = make([]string, len(f.forLineLabels))
-	for i, label := range f.forLineLabels {
-		f.forLineLabelsToWrite[i] = fmt.Sprintf("__for_%s_%s", f.forCountLabel, label)
-	}
+	copy(f.forLineLabelsToWrite, f.forLineLabels)
 
 	f.forCount = val
 	f.forIndex = 0 // should not be necessary
@@ -350,18 +351,7 @@ func forRof(f *forExpander) forStateFn {
 				if tok.val == f.forCountLabel {
 					f.tokens <- token{tokNumber, fmt.Sprintf("%d", i)}
 				} else {
-					found := false
-					for _, label := range f.forLineLabels {
-						forLabel := fmt.Sprintf("__for_%s_%s", f.forCountLabel, label)
-						if tok.val == label {
-							f.tokens <- token{tokText, forLabel}
-							found = true
-							break
-						}
-					}
-					if !found {
-						f.tokens <- tok
-					}
+					f.tokens <- tok
 				}
 			} else {
 				f.tokens <- tok
